@@ -25,7 +25,9 @@ Matches == /\ Len(Ev.state) = Len(hdr')
 SerialOK == Ev.serial = "ok"
 Reset == IsEv("T") /\ hdr' = <<>> /\ names' = <<>>
 NewHeader == /\ IsEv("newheader") /\ Ev.res = "nil"
-             /\ hdr' = Append(hdr, Empty) /\ UNCHANGED names /\ Matches /\ SerialOK
+             \* NewHeader(nil, refs): the given references are the new header's reference list
+             /\ hdr' = Append(hdr, [Empty EXCEPT !.refs = [i \in 1..Len(Ev.init) |-> [o |-> Ev.init[i][1], name |-> Ev.init[i][2], len |-> Ev.init[i][3]]]])
+             /\ UNCHANGED names /\ Matches /\ SerialOK
 X(e) == IF "len" \in DOMAIN e.x THEN [o |-> e.x.o, name |-> e.x.name, len |-> e.x.len] ELSE [o |-> e.x.o, name |-> e.x.name]
 Add == /\ IsEv("add") /\ Ev.res \in {"nil", "err"}
        /\ \/ AddNew(Ev.h, Ev.kind, X(Ev), Ev.res)
